@@ -616,6 +616,9 @@ def world_corpus():
         mk_world(MB, [P], [["set", 0, "a", 0], ["add", 1, 0, None], ["set", 1, "b", 0], ["add", 0, 0, None]]),
         mk_world(MB, [B], [["set", 1, "a", 0], ["add", 0, 0, None], ["set", 0, "a", 0]]),
         mk_world(MMB, [S, I], [["set", 0, "a", 0], ["set", 2, "a", 0], ["set", 1, "a", 0], ["set", 0, "a", 1], ["add", 0, 0, None]]),
+        # the same between two Bundles (`_parent_bundle`)
+        mk_world(["bundle", "bundle"], [S], [["set", 0, "a", 0], ["set", 1, "a", 0], ["set", 0, "a", 0]], export=None),
+        mk_world(["bundle", "bundle", "module"], [["bun", "q"]], [["add", 0, 0, None], ["add", 1, 0, None], ["add", 2, 0, None], ["add", 0, 0, None]], export=2),
         # renames behind the container's back; anonymous again, then add(name=)
         mk_world(MM, [S], [["set", 0, "a", 0], ["name", 0, None], ["add", 0, 0, "b"], ["name", 0, "c"], ["add", 0, 0, None]]),
         # stealing makes the robbed Module an orphanage case: its elaboration is refused, the thief's is fine
@@ -739,11 +742,11 @@ def run_world_streams(run, quick, seed, pub_m, pub_b):
     run.sample(dict(stream="world-corpus", case=jobs[0], impl_last_step=oo[0]["steps"][-1]["obs"][0]))
     for tag, ctrs, objs in (("mm", ["module", "module"], [["sig", None], ["inst", None]]),
                             ("mb", ["module", "bundle"], [["sig", None], ["bun", None]])):
-        maxlen = 3 if quick else 4
+        maxlen = 3 if (quick or tag == "mb") else 4
         jobs, nops = world_exhaustive(ctrs, objs, maxlen)
         do(f"world-exhaustive-{tag}", jobs, "wexh" + tag, 200, exhaustive=True, ops_per_step=nops, max_length=maxlen,
            box=f"all sequences of length <= {maxlen} over containers {ctrs}, objects {objs}, names a,b x {{setattr, add(x), x.vis = PORT / INTERNAL}}")
-    n_rand = 1000 if quick else 30000
+    n_rand = 1000 if quick else 12000
     maxlen = 10 if quick else 20
     sm = [n for n in ["ports", "signals", "name", "get", "_t"] if n in pub_m or n == "_t"]
     sb = [n for n in ["signals", "name", "roles", "get", "_t"] if n in pub_b or n == "_t"]
